@@ -59,7 +59,7 @@ CLAIMS.update({
             "§7 C14", TRUST + "virtual milliseconds"),
     "C09": ("e4-servertask", "model_checking",
             "TlsAdmission.tla is the admission reference (minimum version, certificate validity per mode, single role extension); TlsAdmission_MC checks it against the statements of C09 over the whole configuration x peer grid; real handshakes on loopback between rodbus TLS servers (Rust and C ABI constructors, authority and self-signed modes, min 1.2 / 1.3, with and without authorization) and an independently configured rustls peer with pinned versions and fixture certificates are validated by TLC: outcome, negotiated version and the role seen by the authorization handler",
-            "§7 C09", TRUST + "rustls/webpki/ring internals; fixture certificate facts tabulated in TlsAdmission!CertInfo; server role (client role: see DESIGN.md)"),
+            "§7 C09", TRUST + "rustls/webpki/ring internals; fixture certificate facts tabulated in TlsAdmission!CertInfo; both roles: rodbus servers against a rustls client peer and the rodbus TLS client against a rustls server peer"),
     "C15": ("e4-servertask", "model_checking",
             "ServerTaskTrace.tla models the tracker (ids in age order), per-connection fate and the shared database; random histories of connects / requests / closes / malformed headers / half frames / decode changes / shutdown / handle drop with max_sessions 0..3 on loopback TCP, and TLS servers with sessions stalled in the handshake, are validated by TLC using the tracker hook events (size <= max, evicted = oldest at every step) and the peers' view (reply computed by the reference server, EOF, refused); a session may leave the tracker only for a cause on its own connection (isolation)",
             "§7 C15", TRUST + "eviction / close timing is observed through hook events and bounded waits (no deterministic scheduler under tokio)"),
